@@ -339,12 +339,15 @@ theorem C15_inverted_range_counterexample :
     range [(([1] : Key), 10), ([2], 20), ([3], 30)] (.incl [3]) (.excl [1]) = [] := by decide
 
 /- open (stated contracts / run-only, nothing in this file depends on them as axioms):
-   * tantivy-fst internals: the separator lookup is proved against `FstContract` (C15_fst_locate);
-     the harness compares the real fst-backed index on every dictionary.
+   * tantivy-fst internals: the separator lookup is proved against `FstContract` (C15_fst_locate,
+     C15_file_block_for_key); the harness compares the real fst-backed index on every dictionary.
    * zstd block compression and the construction of Levenshtein/regex automata: run-only.
-   * ONE theorem composing footer + framing + store locate/get + delta scan into `ord_to_term`
-     over the bytes of a whole written file: the pieces are proved separately
-     (C15_file_roundtrip, C15_store_locate_then_get, C15_delta_scan, C15_ops_refine_ord_to_term). -/
+   * `ord_to_term` and `get_block_with_key` are composed down to the bytes of a whole file
+     (C15_file_ord_to_term_written_store, C15_void_file_ord_to_term, C15_file_block_for_key);
+     `get` / `term_ord` / streams are proved on the block model (C15_ops_refine_*), not yet
+     composed with the framing down to file bytes.
+   * that `Writer` passes exactly `frameAddrs` to the index builder, and that the store region
+     stays below 2^64 bytes, are hypotheses of the file-level theorems. -/
 
 example : kwayMerge List.sum [[(([1] : Key), 1), ([3], 3)], [([2], 20), ([3], 30)], []]
     = [([1], 1), ([2], 20), ([3], 33)] := by decide
